@@ -108,6 +108,19 @@ CLAIMED.update({
             "§3 C17"),
 })
 
+CLAIMED.update({
+    "C12": ("exploration",
+            "bounded-exhaustive enumeration of all orders n=1..128 (quick) / 1..512 plus eight orders up to 4000 (thorough) x 7 intervals (shifted, far from the origin, reversed), each rule checked against its reference-free definition and against a long-double Newton reference",
+            "Order-dependent errors (odd n, large n, the mirror assignment, the middle node written twice, shifted or reversed intervals) are invisible to the single even order the tests use; here every order is built and checked for strictly monotone nodes strictly inside the interval, node and weight symmetry (weights bit for bit), weight sign, sum of weights, exact integration of every Legendre polynomial and monomial of degree k<=min(2n-1,60), agreement of nodes (few ulp) and weights (L1 norm) with an independent long-double rule, identical bits from the three Integrate_Gauss_Legendre overloads and rejection of mismatched lengths.",
+            "Exactness is checked directly only up to degree 60 (conditioning); above that it follows from agreement with the reference rule. Tolerances are O(n)u (rounding of the three-term recurrence), not fitted.",
+            "§3 C12"),
+    "C13": ("exploration",
+            "bounded-exhaustive enumeration over configurations: 6 method names x 19 smooth integrands x 4 intervals x {default, explicit} method_parameter in both orientations and with equal limits; Integrate_2D/3D for every method x every orientation of every axis with different factors and disjoint ranges per axis; spherical overload on angular sub-ranges",
+            "The repository's multi-dimensional tests use integrands symmetric under exchange of variables on identical limits, so a swapped argument or limit cannot show; here every axis has its own range and its own factor, every argument handed to the integrand is recorded and must lie in the range of its own pair of limits, and the result must be the signed product of the 1D integrals. 1D: every method within its stated accuracy relative to kappa = int|f|/|int f|, reversed limits the bitwise negation, equal limits exactly 0, abscissae inside the interval. Spherical overload: norm in the shell, z/r in the cos(theta) range, azimuth in the phi range, result = solid angle x radial integral.",
+            "Integrand families are finite lists (damped cosines up to two periods, Lorentzian, 1/(x+s), Gaussians); 3D Trapezoidal uses factors linear in y and z (the boost rule would otherwise need 7e10 evaluations). One integrand on which the trapezoidal rule misses 1e-6 by 6 % is recorded in KNOWN_FINDINGS.txt.",
+            "§3 C13"),
+})
+
 NOT_APPLICABLE = {
 }
 
